@@ -3,7 +3,7 @@
    facade) produced, in the canonical descriptor view of Desc.v. *)
 From Coq Require Import String List NArith Bool.
 From J5V.lib Require Import Outcome Corr Strcase.
-From J5V.model Require Import J5sAst Desc J5sWalk J5sConvert J5sValid J5sEdit.
+From J5V.model Require Import J5sAst Desc J5sWalk J5sConvert J5sValid J5sEdit J5sEntity J5sComments.
 Import ListNotations.
 Local Open Scope N_scope.
 
@@ -25,7 +25,22 @@ Definition valid (bd : bundle) : bool := valid_bundle to_snake to_camel to_screa
    and accepted all the same). *)
 Inductive c02case :=
 | CCompile (bd : bundle) (pkg : str) (ok : bool) (files : list dfile)
-| CCompileV (bd : bundle) (pkg : str) (ok okall exact : bool) (files : list dfile).
+| CCompileV (bd : bundle) (pkg : str) (ok okall exact : bool) (files : list dfile) (locs : list (str * dtable * list (list N * str)))
+(* a bundle with entities (expanded by J5sEntity.expand_jfile inside [bd]); [ents]: the main
+   proto paths of the source files that declare one *)
+| CCompileE (bd : bundle) (pkg : str) (ents : list str) (ok okall exact : bool) (files : list dfile) (locs : list (str * dtable * list (list N * str))).
+
+(* the source locations of the main file of every source file of the compiled package: what
+   J5sComments.main_locs computes from the source and the description table = what the real
+   compiler wrote (descriptor path and leading comment, in order) *)
+Definition locs_check (bd : bundle) (locs : list (str * dtable * list (list N * str))) : bool :=
+  forallb (fun x => match x with
+                    | (path, t, real) =>
+                        match find_jfile bd path with
+                        | Some f => locs_eqb (main_locs to_camel t f) real
+                        | None => false
+                        end
+                    end) locs.
 
 Definition compile_check (bd : bundle) (pkg : str) (ok : bool) (files : list dfile) : bool :=
   match compile bd pkg with
@@ -34,11 +49,21 @@ Definition compile_check (bd : bundle) (pkg : str) (ok : bool) (files : list dfi
   | _ => false
   end.
 
+Definition compile_check_e (bd : bundle) (pkg : str) (ents : list str) (ok : bool) (files : list dfile) : bool :=
+  match compile bd pkg with
+  | Ok fs => ok && list_eqb dfile_eqb (sort_files (with_entity_imports ents fs)) files
+  | Err _ => negb ok
+  | _ => false
+  end.
+
 Definition c02_check (c : c02case) : bool :=
   match c with
+  | CCompileE bd pkg ents ok okall exact files locs =>
+      compile_check_e bd pkg ents ok files && locs_check bd locs &&
+      (if exact then Bool.eqb (valid bd) okall else implb (valid bd) okall)
   | CCompile bd pkg ok files => compile_check bd pkg ok files
-  | CCompileV bd pkg ok okall exact files =>
-      compile_check bd pkg ok files &&
+  | CCompileV bd pkg ok okall exact files locs =>
+      compile_check bd pkg ok files && locs_check bd locs &&
       (if exact then Bool.eqb (valid bd) okall else implb (valid bd) okall)
   end.
 
